@@ -169,7 +169,9 @@ let handle kind c =
     let log = next_list c next in
     let same_day = next_bool c in
     let mode = (match next c with "nomode" -> None | "mode" -> Some (next_bytes c) | t -> failwith ("mode tag " ^ t)) in
-    let where = Printf.sprintf "plan-%s-%s" variant (String.concat "," (List.map (fun (i, k) -> Printf.sprintf "%d:%s" i (match k with KOk -> "ok" | KErr -> "err" | KShort -> "short")) steps)) in
+    let where = Printf.sprintf "plan-%s-mode[%s]-%s" variant
+        (match mode with None -> "absent" | Some b -> let t = string_of_bytes b in String.escaped (if String.length t > 20 then String.sub t 0 20 ^ "..." else t))
+        (String.concat "," (List.map (fun (i, k) -> Printf.sprintf "%d:%s" i (match k with KOk -> "ok" | KErr -> "err" | KShort -> "short")) steps)) in
     (match status with
      | "hang" -> prop "hang" (where ^ ": Open/Add did not return within the step budget")
      | "panic" -> prop "panic" (where ^ ": a panic escaped from Open/Add")
